@@ -119,6 +119,7 @@ def rules_for(pid):
             ("WIRE-subscribe", lambda c: RX.wire_rule(c.P, c.E, c.H, lambda m: m == "observable"), 1),
             ("F-clear-total", lambda c: RO.f_clear_total(c.P, c.E), 1),
             ("F-direct-call", lambda c: RO.f_direct_call(c.P, c.E), 3),
+            ("O-slot-calls", lambda c: RO.o_slot_calls(c.P, c.E), 1),
         ],
         "C02": [
             ("H-complete", lambda c: RH.h_complete(c.P, c.E, c.H, scope_c02), 14),
@@ -195,6 +196,8 @@ def rules_for(pid):
             ("HOOK-STORE", lambda c: RO.hook_store(c.P, c.E, ("observer::", "internals::stream_controller::")), 2),
             ("WIRE-subscribe", lambda c: RX.wire_rule(c.P, c.E, c.H, lambda m: m == "observable"), 1),
             ("F-clear-total", lambda c: RO.f_clear_total(c.P, c.E), 1),
+            ("SUB-handoff-only", lambda c: RO.sub_handoff_only(c.P, c.E), 1),
+            ("P8", lambda c: _only(RJ.p_rules(c.P, c.E), ("P8",)), 1),
         ],
         "C06": [
             ("H-early-stop", lambda c: RH.h_early_stop(c.P, c.E, c.H), 24),
@@ -220,6 +223,9 @@ def rules_for(pid):
             ("AMB", lambda c: ROPS.amb_rule(c.P, c.E, c.H), 1),
             # aborting an upstream that is just delivering its own terminal (retry / resume-next inside the error callback) still runs its teardown
             ("O-unsub-order", lambda c: RO.o_unsub_order(c.P, c.E), 4),
+            ("REG-ALL", lambda c: RX.reg_all(c.P, c.E, c.H), 40),
+            # an endless iterator / producer loop must be able to stop: the emitting loop polls is_subscribed and leaves
+            ("L4", lambda c: RL.l4_producer_polling(c.P, c.E), 3),
         ],
         "C07": [
             ("L1", lambda c: RL.l1_reentrancy(c.P, c.E, c.H), 19),
@@ -229,7 +235,7 @@ def rules_for(pid):
             ("S-finalize-after-terminal", lambda c: RO.s_finalize_after_terminal(c.P, c.E), 3),
             # lock order of the queue's cells (L3, Q1, Q10) and the wake-up protocol: a parked worker is woken by every enabling write (Q2),
             # its predicate reads both conditions (Q3) and it re-checks abort before it pops (Q4) - else it waits forever
-            ("Q-lock-order", lambda c: _only(RQ.q_rules(c.P, c.E), ("L3", "Q1", "Q10", "Q2", "Q3", "Q4")), 5),
+            ("Q-lock-order", lambda c: _only(RQ.q_rules(c.P, c.E), ("L3", "Q1", "Q10", "Q2", "Q3", "Q4", "Q13")), 5),
             # a take that never finishes leaves subscribe() spinning in an endless but cancellable source (repeat, a while-is_subscribed loop)
             ("COUNT-take", lambda c: _only(RCNT.count_rule(c.P, c.E, c.H), ("operators::take::Take",)), 1),
             # the to_vec future: a terminal that lands between poll's test and its waker store must still wake the task; lock order of its cells
@@ -258,6 +264,7 @@ def rules_for(pid):
             # a source wired up after its downstream has ended is never released
             ("H-register-first", lambda c: RH.h_register_first(c.P, c.E, c.H), 9),
             ("T1", lambda c: RS.t1_abort_wired(c.P, c.E), 3),
+            ("REG-ALL", lambda c: RX.reg_all(c.P, c.E, c.H), 40),
         ],
         "C18": [
             ("W", lambda c: RW.w_rules(c.P, c.E), 4),
@@ -267,6 +274,7 @@ def rules_for(pid):
             # subscribes with runs no callback after a terminal
             ("O-typestate", lambda c: RO.o_typestate(c.P, c.E, ("callback after terminal",)), 1),
             ("INIT", lambda c: RX.init_rule(c.P, c.E, ("operators::to_vec::",)), 3),
+            ("SUB-handoff-only", lambda c: RO.sub_handoff_only(c.P, c.E), 1),
         ],
         "C09": [
             ("HANDOFF", lambda c: RS.handoff_rules(c.P, c.E, c.H), 3),
@@ -313,6 +321,7 @@ def rules_for(pid):
             ("COMPLETE-KIND", lambda c: ROPS.complete_kind_rule(c.P, c.E, c.H), 8),
             # observe_on behind a combinator fed from several threads: its scheduler exists before the first event
             ("T2", lambda c: RS.t2_one_scheduler(c.P, c.E), 5),
+            ("H-next-forward", lambda c: ROPS.forward_rule(c.P, c.E, c.H), 8),
         ],
         "C12": [
             ("J", lambda c: _only(RJ.j_rules(c.P, c.E), ("J1", "J2", "J3", "J6", "J7", "J10")), 5),
@@ -321,6 +330,7 @@ def rules_for(pid):
             ("X-blocking-acq", _xacq("subjects::"), 15),
             ("CLONE-SHARES", _xclone(3, "subjects::"), 3),
             ("INIT", lambda c: RX.init_rule(c.P, c.E, ("subjects::",)), 2),
+            ("O-slot-calls", lambda c: RO.o_slot_calls(c.P, c.E), 1),
         ],
         "C13": [
             ("P", lambda c: RJ.p_rules(c.P, c.E), 6),
@@ -354,6 +364,7 @@ def rules_for(pid):
             # disconnect must find the connection: connect stores the handle under the guard it tested under
             ("P-connect", lambda c: _only(RJ.p_rules(c.P, c.E), ("P2", "P3", "P6")), 2),
             ("H-register-first", lambda c: RH.h_register_first(c.P, c.E, c.H), 9),
+            ("H-early-stop", lambda c: RH.h_early_stop(c.P, c.E, c.H), 24),
         ],
         "C19": [
             ("A19b", lambda c: RJ.a19b(c.P, c.E), 3),
@@ -370,6 +381,8 @@ def rules_for(pid):
             ("WIRE-subscribe", lambda c: RX.wire_rule(c.P, c.E, c.H, lambda m: m == "observable"), 1),
             ("F-clear-total", lambda c: RO.f_clear_total(c.P, c.E), 1),
             ("F-direct-call", lambda c: RO.f_direct_call(c.P, c.E), 3),
+            ("O-slot-calls", lambda c: RO.o_slot_calls(c.P, c.E), 1),
+            ("SUB-handoff-only", lambda c: RO.sub_handoff_only(c.P, c.E), 1),
         ],
         "C14": [
             ("K-fresh-state", lambda c: RK.k_fresh_state(c.P, c.E), 28),
